@@ -42,10 +42,13 @@ TEXT = dict(
 
 # --- tie by translation (translators/go2lean, notes/go2lean.md; agreement theorems in lean/FitProps/C05Go2Lean.lean).
 # Kept as a separate block so that it never collides with edits of the dictionary above.
-PROP['regen'] = PROP['regen'] + ['go2lean:decoder']
-PROP['go2lean_diff'] = ['Bits']      # lean/Go2LeanDiff/<Topic>.lean: search for a differing argument when an agreement theorem breaks
+PROP['regen'] = PROP['regen'] + ['go2lean:decoderbits']
+PROP['go2lean_diff'] = ['Bits', 'Accum']      # lean/Go2LeanDiff/<Topic>.lean: search for a differing argument when an agreement theorem breaks
 PROP['theorems'] = PROP['theorems'] + [
     'Fit.C05.C05_go2lean_pull',
-    'Fit.C05.C05_go2lean_pull_twice']
+    'Fit.C05.C05_go2lean_pull_twice',
+    'Fit.C05.C05_go2lean_collect',
+    'Fit.C05.C05_go2lean_accumulate',
+    'Fit.C05.C05_go2lean_accum_reset']
 PROP['trusted_base'] = PROP['trusted_base'] + [
-    "translators/go2lean (Go→Lean for a small subset of Go, notes/go2lean.md) re-translates (*bits).Pull of decoder/bits.go from the current source on every run; the agreement theorems *_go2lean_* state that the translated functions equal the hand-written model functions for all arguments; trusted: the translator's rendering of the subset (go/types computes constants and types) and FitModel/GoPrelude.lean"]
+    "translators/go2lean (Go→Lean for a small subset of Go, notes/go2lean.md) re-translates (*bits).Pull of decoder/bits.go and (*Accumulator).Collect / Accumulate / Reset of decoder/accumulator.go (the accumulator is assumed to own its slice: no other live slice shares its backing array) from the current source on every run; the agreement theorems *_go2lean_* state that the translated functions equal the hand-written model functions for all arguments; trusted: the translator's rendering of the subset (go/types computes constants and types) and FitModel/GoPrelude.lean"]
